@@ -392,3 +392,174 @@ def replay_compiled(args):
     res = json.loads(line[-1])
     what = f"{args['module']}.{args['func']}{tuple(str(a) for a in args['args'])}: compiled {res['compiled']} vs interpreter {res['interpreter']} ({args.get('detail', '')})"
     return (not res["same"]), what
+
+
+# ---- frozen globals ---------------------------------------------------------------------------------------------------------------
+# numba treats every module-level name a kernel reads (a float/int/array constant of its own module, or an attribute of an imported
+# module such as eko.constants.CF) as a COMPILE-TIME constant: the value at compilation (or the one baked into the on-disk cache) is
+# what the machine code uses for ever, while the interpreter reads the current value on every call.  The two semantics agree iff
+# nothing rebinds such a name at run time.  `frozen_globals()` lists the names every kernel of the current tree reads;
+# `global_writers()` scans the whole yadism source for code that rebinds one of them: an assignment `mod.X = ...`, a `global X`
+# assignment, or a call of a function (of any library) whose body rebinds one through `global X`.
+
+_MODTREES = {}
+
+
+def _resolve_const(v):
+    import types
+    return not (callable(v) or isinstance(v, (types.ModuleType, type)))
+
+
+def frozen_globals():
+    """{(module name, attribute): sorted list of kernels (module, name) that read it}"""
+    import types
+    out = {}
+    for key in INFO:
+        fn = _SAVED.get(key, (None,))[0]
+        if fn is None:
+            mod = sys.modules.get(key[0])
+            fn = getattr(mod, key[1], None)
+            fn = getattr(fn, "py_func", fn)
+        if not inspect.isfunction(fn):
+            continue
+        try:  # the module's own source (the function's code object may be the instrumented one)
+            tree = _MODTREES.get(key[0]) or _MODTREES.setdefault(key[0], ast.parse(inspect.getsource(sys.modules[key[0]])))
+            node = next(n for n in tree.body if isinstance(n, ast.FunctionDef) and n.name == key[1])
+        except Exception:  # noqa
+            continue
+        g = fn.__globals__
+        local = {a.arg for a in node.args.args}
+        for n in ast.walk(node):
+            if isinstance(n, ast.Name) and isinstance(n.ctx, ast.Store):
+                local.add(n.id)
+        for n in ast.walk(node):
+            if isinstance(n, ast.Attribute) and isinstance(n.value, ast.Name) and n.value.id not in local:
+                m = g.get(n.value.id)
+                if isinstance(m, types.ModuleType) and hasattr(m, n.attr) and _resolve_const(getattr(m, n.attr)) and not m.__name__.startswith(("numpy", "numba", "math")):
+                    out.setdefault((m.__name__, n.attr), set()).add(key)
+            elif isinstance(n, ast.Name) and isinstance(n.ctx, ast.Load) and n.id not in local and n.id in g and not n.id.startswith("__yv"):
+                v = g[n.id]
+                if _resolve_const(v):
+                    # a constant imported by name (`from eko.constants import CF`) is a copy bound in the kernel's own module
+                    out.setdefault((fn.__module__, n.id), set()).add(key)
+    return {k: sorted(v) for k, v in out.items()}
+
+
+def _global_rebinds(fnode, modname):
+    """names a function body rebinds through `global X` (X assigned somewhere in the body)"""
+    gl = set()
+    for n in ast.walk(fnode):
+        if isinstance(n, ast.Global):
+            gl.update(n.names)
+    stored = {n.id for n in ast.walk(fnode) if isinstance(n, ast.Name) and isinstance(n.ctx, ast.Store)}
+    return {(modname, x) for x in gl & stored}
+
+
+def global_writers(frozen):
+    """code of the yadism package that rebinds a frozen name; list of dicts(file, line, how, names, call=(module, function) or None)"""
+    import types
+    import yadism
+
+    found = []
+    for mi in pkgutil.walk_packages(yadism.__path__, "yadism."):
+        try:
+            mod = importlib.import_module(mi.name)
+            tree = ast.parse(inspect.getsource(mod))
+        except Exception:  # noqa
+            continue
+        ns = vars(mod)
+        for fnode in [n for n in ast.walk(tree) if isinstance(n, (ast.FunctionDef, ast.AsyncFunctionDef))]:
+            hit = _global_rebinds(fnode, mod.__name__) & set(frozen)
+            if hit:
+                found.append(dict(file=mod.__name__, line=fnode.lineno, how=f"function {fnode.name} rebinds module-level name(s) through `global`",
+                                  names=sorted(hit), call=(mod.__name__, fnode.name)))
+        for n in ast.walk(tree):
+            tg = []
+            if isinstance(n, ast.Assign):
+                tg = n.targets
+            elif isinstance(n, (ast.AugAssign, ast.AnnAssign)):
+                tg = [n.target]
+            for t in tg:
+                if isinstance(t, ast.Attribute) and isinstance(t.value, ast.Name) and isinstance(ns.get(t.value.id), types.ModuleType):
+                    k = (ns[t.value.id].__name__, t.attr)
+                    if k in frozen:
+                        found.append(dict(file=mod.__name__, line=n.lineno, how=f"assignment to {t.value.id}.{t.attr}", names=[k], call=None))
+            if isinstance(n, ast.Call):
+                g = None
+                if isinstance(n.func, ast.Attribute) and isinstance(n.func.value, ast.Name) and isinstance(ns.get(n.func.value.id), types.ModuleType):
+                    g = getattr(ns[n.func.value.id], n.func.attr, None)
+                elif isinstance(n.func, ast.Name):
+                    g = ns.get(n.func.id)
+                    if isinstance(g, types.FunctionType) and g.__module__ == mod.__name__:
+                        g = None  # own functions are covered by the `global` scan above
+                if n.func.__class__ is ast.Name and n.func.id == "setattr" and len(n.args) >= 2 and isinstance(n.args[0], ast.Name) \
+                        and isinstance(ns.get(n.args[0].id), types.ModuleType) and isinstance(n.args[1], ast.Constant):
+                    k = (ns[n.args[0].id].__name__, n.args[1].value)
+                    if k in frozen:
+                        found.append(dict(file=mod.__name__, line=n.lineno, how=f"setattr({n.args[0].id}, {n.args[1].value!r}, ...)", names=[k], call=None))
+                g = getattr(g, "py_func", g)
+                if isinstance(g, types.FunctionType):
+                    try:
+                        gnode = ast.parse(textwrap.dedent(inspect.getsource(g))).body[0]
+                    except Exception:  # noqa
+                        continue
+                    hit = _global_rebinds(gnode, g.__module__) & set(frozen)
+                    if hit:
+                        found.append(dict(file=mod.__name__, line=n.lineno, how=f"call of {g.__module__}.{g.__name__}, which rebinds module-level name(s) through `global`",
+                                          names=sorted(hit), call=(g.__module__, g.__name__)))
+    return found
+
+
+FROZEN_REPLAY_SRC = r'''
+import importlib, json, sys, inspect
+import numpy as np
+spec = json.loads(sys.argv[1])
+mod = importlib.import_module(spec["module"])
+f = getattr(mod, spec["func"])
+assert hasattr(f, "py_func"), "JIT is not enabled in the replay process"
+args = [np.array(a, dtype=float) if isinstance(a, list) else a for a in spec["args"]]
+before = complex(f(*args))                      # compiles (or loads) the kernel with the current value of the global
+tm = importlib.import_module(spec["name"][0])
+old = getattr(tm, spec["name"][1])
+if spec.get("call"):
+    w = getattr(importlib.import_module(spec["call"][0]), spec["call"][1])
+    npar = len([p for p in inspect.signature(w).parameters.values() if p.default is p.empty and p.kind in (p.POSITIONAL_ONLY, p.POSITIONAL_OR_KEYWORD)])
+    done = False
+    for cand in (4, 2.0, 7):
+        try:
+            w(*([cand] * npar))
+        except Exception:
+            continue
+        if getattr(tm, spec["name"][1]) != old:
+            done = True
+            break
+    if not done:
+        print(json.dumps(dict(same=True, note="the writer could not be driven to change the value"))); sys.exit(0)
+else:
+    setattr(tm, spec["name"][1], old * 1.5 + 1)
+new = getattr(tm, spec["name"][1])
+c, p = complex(f(*args)), complex(f.py_func(*args))
+same = abs(c - p) <= 1e-12 * max(1.0, abs(p))
+print(json.dumps(dict(same=bool(same), compiled=str(c), interpreter=str(p), before=str(before), old=repr(old), new=repr(new))))
+'''
+
+
+def replay_frozen(args):
+    """JIT enabled, private cache: compile the kernel, let the writer found in the source rebind the global, compare machine code and interpreter"""
+    import json
+    import os
+    import subprocess
+    import tempfile
+
+    with tempfile.TemporaryDirectory(dir="/var/tmp") as d:
+        env = dict(os.environ, NUMBA_DISABLE_JIT="0", NUMBA_CACHE_DIR=d)
+        env.pop("YADISM_VERIF", None)
+        r = subprocess.run([sys.executable, "-c", FROZEN_REPLAY_SRC, json.dumps(args)], capture_output=True, text=True, env=env, timeout=900)
+    line = [ln for ln in r.stdout.splitlines() if ln.startswith("{")]
+    if not line:
+        return False, f"replay process failed: {r.stderr[-300:]}"
+    res = json.loads(line[-1])
+    if res.get("same"):
+        return False, res.get("note", "compiled and interpreted kernel agree after the write")
+    return True, (f"{args['module']}.{args['func']}: after {args['how']} ({args['file']}:{args['line']}) {args['name'][0]}.{args['name'][1]} = {res['new']} (was {res['old']}); "
+                  f"compiled kernel still returns {res['compiled']}, the interpreter {res['interpreter']}")
